@@ -42,6 +42,7 @@ type c08Site struct {
 	FuncKey               string // import path + "." + [Recv.]Name of the enclosing function
 	Body                  string // MapRange: hash of the range statement and of everything that follows it in its block
 	Stale                 string // a table entry matched the key but was reviewed against another body
+	Effects               string // MapRange: what leaves the loop body besides control flow (events, writes to outer non-bool variables, appends)
 }
 
 type c08TableEntry struct {
@@ -276,6 +277,11 @@ func extractC08(c *Ctx) error {
 					return fmt.Errorf("%s: %s %s is classified %q but the function is referenced from non-test code", tablePath, s.Pkg, s.Func, e.Class)
 				}
 				used[i] = true
+				if s.Kind == "MapRange" && e.Class == "lemma:any_order_bool_perm_invariant" && s.Effects != "" {
+					// an exists / for-all loop is order-independent only if NOTHING but the boolean leaves it
+					s.Stale = "classified any-order boolean, but the loop body has effects: " + s.Effects
+					continue
+				}
 				if s.Kind == "MapRange" && e.Body != s.Body {
 					// reviewed against other code: not accepted until reviewed again
 					s.Stale = fmt.Sprintf("reviewed body %q, current body %q", e.Body, s.Body)
@@ -540,7 +546,15 @@ func c08ScanFile(c *Ctx, p *packages.Package, f *ast.File, rel string) ([]*c08Si
 						h.Write([]byte(strings.Join(strings.Fields(c.Src(st)), " ")))
 						h.Write([]byte{0})
 					}
+					// round 5: the closures of the enclosing function that the loop (or what follows it) calls are part of what was
+					// reviewed — `log("reason")` inside an exists-loop is harmless only as long as `log` does nothing but log
+					closures := c08LocalClosures(info, enclosing, tail)
+					for _, fl := range closures {
+						h.Write([]byte("closure:" + strings.Join(strings.Fields(c.Src(fl)), " ")))
+						h.Write([]byte{0})
+					}
 					out[len(out)-1].Body = hex.EncodeToString(h.Sum(nil))[:12]
+					out[len(out)-1].Effects = c08LoopEffects(c, info, x, closures)
 				} else if _, isChan := t.Underlying().(*types.Chan); isChan {
 					add("ChanRange", fn, c.Src(x.X), x, "")
 				} else if _, isFn := t.Underlying().(*types.Signature); isFn {
@@ -989,6 +1003,121 @@ func c08HasMethod(t types.Type, name string) bool {
 		}
 	}
 	return false
+}
+
+// c08LocalClosures: function literals assigned to local variables of the enclosing function that are called (by name)
+// from the given statements, in source order of the literals.
+func c08LocalClosures(info *types.Info, enclosing *ast.FuncDecl, stmts []ast.Stmt) []*ast.FuncLit {
+	if enclosing == nil || enclosing.Body == nil {
+		return nil
+	}
+	lits := map[types.Object]*ast.FuncLit{}
+	ast.Inspect(enclosing.Body, func(n ast.Node) bool {
+		switch x := n.(type) {
+		case *ast.AssignStmt:
+			if len(x.Lhs) == len(x.Rhs) {
+				for i, l := range x.Lhs {
+					if id, ok := l.(*ast.Ident); ok {
+						if fl, ok := x.Rhs[i].(*ast.FuncLit); ok {
+							if o := info.ObjectOf(id); o != nil {
+								lits[o] = fl
+							}
+						}
+					}
+				}
+			}
+		case *ast.ValueSpec:
+			for i, id := range x.Names {
+				if i < len(x.Values) {
+					if fl, ok := x.Values[i].(*ast.FuncLit); ok {
+						if o := info.ObjectOf(id); o != nil {
+							lits[o] = fl
+						}
+					}
+				}
+			}
+		}
+		return true
+	})
+	seen := map[*ast.FuncLit]bool{}
+	var out []*ast.FuncLit
+	var visit func(n ast.Node, depth int)
+	visit = func(n ast.Node, depth int) {
+		ast.Inspect(n, func(m ast.Node) bool {
+			if ce, ok := m.(*ast.CallExpr); ok {
+				if id, ok := ce.Fun.(*ast.Ident); ok {
+					if fl := lits[info.ObjectOf(id)]; fl != nil && !seen[fl] {
+						seen[fl] = true
+						out = append(out, fl)
+						if depth < 3 {
+							visit(fl.Body, depth+1)
+						}
+					}
+				}
+			}
+			return true
+		})
+	}
+	for _, st := range stmts {
+		visit(st, 0)
+	}
+	sort.Slice(out, func(i, j int) bool { return out[i].Pos() < out[j].Pos() })
+	return out
+}
+
+// c08LoopEffects: what leaves a map loop besides its control flow — scanned in the loop body and in the local closures it
+// calls: event emission (any call whose name mentions Emit / EventManager), appends, assignments to variables declared
+// outside the loop whose type is not bool, channel sends, go / defer.  "" = nothing.
+func c08LoopEffects(c *Ctx, info *types.Info, rs *ast.RangeStmt, closures []*ast.FuncLit) string {
+	set := map[string]bool{}
+	scan := func(root ast.Node, lo, hi token.Pos) {
+		ast.Inspect(root, func(n ast.Node) bool {
+			switch x := n.(type) {
+			case *ast.CallExpr:
+				f := strings.Join(strings.Fields(c.Src(x.Fun)), "")
+				if strings.Contains(f, "Emit") || strings.Contains(f, "EventManager") {
+					set["event:"+f] = true
+				}
+				if id, ok := x.Fun.(*ast.Ident); ok && id.Name == "append" {
+					if _, isB := info.Uses[id].(*types.Builtin); isB {
+						set["append"] = true
+					}
+				}
+			case *ast.AssignStmt:
+				for _, l := range x.Lhs {
+					id, _ := c08RootIdent(l)
+					if id == nil || id.Name == "_" {
+						continue
+					}
+					v, _ := info.ObjectOf(id).(*types.Var)
+					if v == nil || (v.Pos() >= lo && v.Pos() <= hi) {
+						continue // declared inside the scanned code
+					}
+					if b, ok := info.TypeOf(l).Underlying().(*types.Basic); ok && b.Info()&types.IsBoolean != 0 {
+						continue
+					}
+					if _, isMap := info.TypeOf(id).Underlying().(*types.Map); isMap {
+						if _, isIdx := l.(*ast.IndexExpr); isIdx {
+							continue // inserting into a map: order-free (the map-insert-only rule judges that)
+						}
+					}
+					set["write:"+id.Name] = true
+				}
+			case *ast.SendStmt:
+				set["send"] = true
+			case *ast.GoStmt:
+				set["go"] = true
+			case *ast.DeferStmt:
+				set["defer"] = true
+			}
+			return true
+		})
+	}
+	scan(rs.Body, rs.Pos(), rs.End())
+	for _, fl := range closures {
+		scan(fl.Body, fl.Pos(), fl.End())
+	}
+	return strings.Join(SortedSet(set), ",")
 }
 
 // ---- syntactic auto-classification of map ranges ----
